@@ -32,6 +32,14 @@ func batchWorld(r *R) {
 	n := r.Choose(9, "items")
 	batchSize := 1 + r.Choose(5, "batchsize")
 	maxWait := time.Duration(1+r.Choose(6, "maxwait")) * unit
+	switch r.Choose(16, "maxwait-edge") { // edge classes: no waiting at all
+	case 14:
+		maxWait = 0
+		r.Probe("maxwait-zero")
+	case 15:
+		maxWait = -unit
+		r.Probe("maxwait-negative")
+	}
 	useFunc := r.Choose(3, "batchfunc") == 2
 	slowFull := useFunc && r.Choose(2, "slowfull") == 1
 	items := make([]int, n)
@@ -94,6 +102,10 @@ func batchWorld(r *R) {
 		closePause = time.Duration(1+r.Choose(15, "pause-d")) * 13 * time.Millisecond
 	}
 	strictTiming := r.Cfg.StallPer1k == 0 && r.Cfg.LatePer1k == 0
+	effWait := maxWait // what the timing oracles use: a negative wait is no wait
+	if effWait < 0 {
+		effWait = 0
+	}
 	r.Logf("config: items=%d batchSize=%d maxWait=%v func=%v srcErrAt=%d closeAfter=%d nexts strictTiming=%v", n, batchSize, maxWait, useFunc, src.ErrAt, closeAt, strictTiming)
 
 	full := func(b []int) bool { return len(b) >= batchSize }
@@ -184,7 +196,7 @@ func batchWorld(r *R) {
 				sourceEnded := src.EndSeq != 0 && src.EndSeq < c.Ret
 				if !full(b) && !sourceEnded {
 					r.Probe("underfilled-by-timer")
-					if c.RetAt < src.HandOver[first]+int64(maxWait) {
+					if c.RetAt < src.HandOver[first]+int64(effWait) {
 						r.Violate("C11", "underfilled-too-early", "an underfilled batch %v was handed out at t=%v although its oldest item was handed over by the source at t=%v and maxWait is %v (source not ended)", b, time.Duration(c.RetAt), time.Duration(src.HandOver[first]), maxWait)
 						return
 					}
@@ -205,7 +217,7 @@ func batchWorld(r *R) {
 					if prevDeliveredAt > started {
 						started = prevDeliveredAt
 					}
-					if due := started + int64(maxWait); c.RetAt > c.InvAt && c.RetAt > due {
+					if due := started + int64(effWait); c.RetAt > c.InvAt && c.RetAt > due {
 						r.Violate("C11", "held-back", "Next was invoked at t=%v; the oldest item of its batch %v was handed over at t=%v (previous batch taken at t=%v), so with maxWait=%v the batch was due at t=%v, but it was only delivered at t=%v", time.Duration(c.InvAt), b, time.Duration(src.HandOver[first]), time.Duration(prevDeliveredAt), maxWait, time.Duration(due), time.Duration(c.RetAt))
 						return
 					}
@@ -213,7 +225,7 @@ func batchWorld(r *R) {
 					if src.HandOver[first] > from {
 						from = src.HandOver[first]
 					}
-					if c.RetAt > from+int64(maxWait) {
+					if c.RetAt > from+int64(effWait) {
 						r.Violate("C11", "held-back", "Next was invoked at t=%v, the first item of its batch %v was handed over at t=%v, maxWait=%v, but the batch was only delivered at t=%v", time.Duration(c.InvAt), b, time.Duration(src.HandOver[first]), maxWait, time.Duration(c.RetAt))
 						return
 					}
